@@ -271,12 +271,33 @@ _LOOP_RE = re.compile(r'\b(for|while)\s*\(')
 
 
 def loop_headers(text):
-    """[(kind, start_of_keyword, index_after_closing_paren)]"""
+    """[(kind, start_of_keyword, index where the loop contract goes, header text)], in source order.
+    for/while: the contract follows the closing paren of the header.  do { } while ( c ); : CBMC wants the contract
+    right after 'do'; the trailing 'while ( c )' belongs to the do statement and is not a loop header of its own;
+    the header text matched against the spec regex is 'do while ( c )'."""
     res = []
+    tails = set()
+    for m in re.finditer(r'\bdo\b', text):
+        k = m.end()
+        while k < len(text) and text[k].isspace():
+            k += 1
+        if k >= len(text) or text[k] != '{':
+            raise ExtractionError("do statement without a braced body near %r" % text[m.start():m.start() + 40])
+        c = match_close(text, k, '{', '}')
+        t = re.match(r'\s*while\s*\(', text[c + 1:])
+        if not t:
+            raise ExtractionError("do statement without trailing while near %r" % text[m.start():m.start() + 40])
+        ws = c + 1 + t.end() - 1
+        wc = match_close(text, ws, '(', ')')
+        tails.add(c + 1 + t.start() + len(t.group(0)) - len(t.group(0).lstrip()))
+        res.append(('do', m.start(), m.end(), 'do ' + text[c + 1:wc + 1].strip()))
     for m in _LOOP_RE.finditer(text):
+        if m.start() in tails:
+            continue
         op = m.end() - 1
         cl = match_close(text, op, '(', ')')
-        res.append((m.group(1), m.start(), cl + 1))
+        res.append((m.group(1), m.start(), cl + 1, text[m.start():cl + 1]))
+    res.sort(key=lambda t: t[1])
     return res
 
 
@@ -286,8 +307,7 @@ def splice_loops(text, loops, what):
         raise ExtractionError("%s: %d loop header(s) in the extracted body, %d loop contract(s) in the spec"
                               % (what, len(hs), len(loops)))
     out = text
-    for (kind, s, e), lp in reversed(list(zip(hs, loops))):
-        hdr = text[s:e]
+    for (kind, s, e, hdr), lp in sorted(zip(hs, loops), key=lambda t: -t[0][2]):
         if not re.search(lp['header'], hdr, re.S):
             raise ExtractionError("%s: loop header %r does not match spec regex %r" % (what, hdr, lp['header']))
         out = out[:e] + '\n' + lp['contract'].strip() + '\n' + out[e:]
@@ -323,7 +343,7 @@ LEFTOVER = [
 
 def extract_body(spec):
     """spec keys: file, locate, scope (optional), pre (unit rules before the generic ones),
-    rules (unit rules after), loops, member_exclude, member_extra, no_members, body='function'|'expr'
+    rules (unit rules after), loops, loops_optional, member_exclude, member_extra, no_members, body='function'|'expr'
     Returns dict(text=<C text of the body including braces>, report={...})"""
     what = spec.get('id', spec['locate'])
     raw, txt = load(spec['file'])
@@ -386,15 +406,19 @@ def extract_body(spec):
                            member_extra=spec.get('member_extra', ()),
                            no_members=spec.get('no_members', False))
     text = apply_unit_rules(text, spec.get('rules'), what, fired)
+    loops = spec.get('loops', [])
+    if spec.get('loops_optional') and not loop_headers(text):
+        # the spec allows a loop-free implementation of this function: nothing to splice
+        loops = []
     if 'loops' in spec or kind == 'function':
-        text = splice_loops(text, spec.get('loops', []), what)
+        text = splice_loops(text, loops, what)
     for pat, msg in LEFTOVER:
         m = re.search(pat, text)
         if m:
             ln = text.count('\n', 0, m.start())
             raise ExtractionError("%s: %s: %r" % (what, msg, text.split('\n')[ln].strip()))
     return dict(text=text, report=dict(id=what, file=spec['file'], lines=list(span), sha256=sha,
-                                       rules_fired=fired, n_loops=len(spec.get('loops', []))))
+                                       rules_fired=fired, n_loops=len(loops)))
 
 
 def split_top(s, sep):
